@@ -625,6 +625,13 @@ class Interp:
         v = self.ver.spec_name(name)
         if v is not None and (self.spec or v.kind == "builtin"):
             return v
+        rn = getattr(self.ver, "renames", None)
+        if rn and name in rn and len(getattr(self, "fn_stack", [])) <= 1:
+            # the contract (spec or ghost statement) names a local of the pinned source that was purely renamed since
+            # (verifier.local_renames); the current code itself cannot mention the old name: it no longer exists
+            v = env.lookup(rn[name])
+            if v is not None:
+                return v
         if not self.spec:
             self.raise_exc("NameError", name)
         raise Unsupported("unknown name in spec: %s" % name)
@@ -1637,6 +1644,8 @@ class Interp:
             if t is not None:
                 _target_names(t, names)
         cnt = self.__dict__.setdefault("_assign_cnt", {})
+        rev = getattr(self.ver, "renames_rev", None) or {}
+        names = {rev.get(nm, nm) for nm in names}          # cut points are keyed by the pinned source's local names
         for nm in sorted(names):
             # "var" = after every assignment of var; "var@k" = only after its k-th assignment on this path (1-based)
             cnt[nm] = cnt.get(nm, 0) + 1
